@@ -104,7 +104,7 @@ Proof.
            apply lookup_None_keys in El. contradiction.
     + destruct (mt =? 0) eqn:E0.
       * destruct pl as [rs|]; cbn [tstep receive ts terr tout so_err so_ack so_sent xs xerr xout xack obs_of_step negb andb no_sent].
-        -- unfold receive. rewrite lookup_set_same, oreqs_eqb_refl, frame_set. reflexivity.
+        -- unfold receive. rewrite lookup_set_same, oreqs_eqb_refl, frame_set, orb_true_r. reflexivity.
         -- rewrite equiv_refl. reflexivity.
       * cbn [so_err so_ack so_sent xs xerr xout xack obs_of_step negb andb no_sent].
         rewrite equiv_refl. reflexivity.
